@@ -221,6 +221,7 @@ class ParserContext:
     def __init__(self) -> None:
         self.modules: Dict[str, str] = {}
         self.importing: List[pathlib.Path] = []
+        self.imported: Dict[pathlib.Path, Any] = {}
 
     def set_module(self, name: str, module: str) -> None:
         """Set the source code module being parsed."""
@@ -281,6 +282,9 @@ class FcpV2Transformer(Transformer):
         self.error_logger = error_logger
         self.filesystem_proxy = filesystem_proxy
         self.fcp = v2.FcpV2()
+        # declarations of modules that another file already contributed:
+        # visible to this file's type references, but not repeated in its result
+        self.scope = v2.FcpV2()
 
         self.source = self.filesystem_proxy.read(self.filename)
         self.parser_context.set_module(self.filename.name, self.source)
@@ -350,6 +354,10 @@ class FcpV2Transformer(Transformer):
         if self.fcp.get_struct(typename).is_some():
             return Ok(StructType(typename))
         elif self.fcp.get_enum(typename).is_some():
+            return Ok(EnumType(typename))
+        elif self.scope.get_struct(typename).is_some():
+            return Ok(StructType(typename))
+        elif self.scope.get_enum(typename).is_some():
             return Ok(EnumType(typename))
         else:
             return error(
@@ -482,6 +490,11 @@ class FcpV2Transformer(Transformer):
                 f"Cyclic import of {filename.name}", Token(_get_meta(tree, self))
             )
 
+        if filename in self.parser_context.imported:
+            # reached along a second path: its declarations are already in the result
+            self.scope.merge(self.parser_context.imported[filename])
+            return Ok(())
+
         try:
             self.error_logger.add_source(str(filename), source)
             fcp_ast = fcp_parser.parse(source)
@@ -490,24 +503,31 @@ class FcpV2Transformer(Transformer):
 
         self.parser_context.importing.append(filename)
         try:
-            fcp = FcpV2Transformer(
+            transformer = FcpV2Transformer(
                 filename,
                 self.parser_context,
                 self.filesystem_proxy,
                 self.error_logger,
-            ).transform(fcp_ast)
+            )
+            fcp = transformer.transform(fcp_ast)
         except VisitError as e:
             return _visit_error(filename, e)
         finally:
             self.parser_context.importing.pop()
 
-        self.fcp.merge(
-            fcp.map_err(
-                lambda err: err.results_in(
-                    f"Failed to import {filename}", Token(_get_meta(tree, self))
-                )
-            ).attempt()
-        )
+        module = fcp.map_err(
+            lambda err: err.results_in(
+                f"Failed to import {filename}", Token(_get_meta(tree, self))
+            )
+        ).attempt()
+        self.fcp.merge(module)
+
+        # what the module could see is what a file importing it can see
+        self.scope.merge(transformer.scope)
+        visible = v2.FcpV2()
+        visible.merge(module)
+        visible.merge(transformer.scope)
+        self.parser_context.imported[filename] = visible
 
         return Ok(())
 
